@@ -130,13 +130,15 @@ def judge(S: dict, r: dict) -> str | None:
                 if m.running and m._sim_name not in r['crashed']:
                     return 'crash:manager-still-running'
         return None
-    if (oracle == 'cancel' or oracle == 'tables') and 'await_cancelled' not in shapes:
+    if (oracle == 'cancel' or oracle == 'tables') and 'await_cancelled' not in shapes and \
+            not any(sh in R.RAISE_SHAPES for sh in shapes):
         t = R.tables(w)
         for name, d in t.items():
             for k, v in d.items():
                 if v != 0:
                     return 'leftover:%s.%s' % (name.rstrip('0123456789'), k)
-    if oracle == 'counters' and not any(s in R.CANCEL_SHAPES or s in R.RAISE_SHAPES for s in shapes):
+    if oracle == 'counters' and not any(s in R.RAISE_SHAPES for s in shapes):
+        cancelling = any(s in R.CANCEL_SHAPES for s in shapes)
         s = w.server
         if not w.managers:
             if s.num_idle_workers != s.total_workers:
@@ -153,6 +155,8 @@ def judge(S: dict, r: dict) -> str | None:
                 if not (0 <= e.num_idle_workers <= e.total_workers):
                     return 'counters:idle-out-of-bounds'
         # every task created was forwarded to exactly one worker
+        if cancelling:
+            return None
         from bqskit.runtime.message import RuntimeMessage
         got: Counter = Counter()
         for wk in w.workers:
